@@ -164,6 +164,14 @@ def blobs_data(seed=0, n=60, d=2):
     return np.clip(np.vstack([a, b]), 0, 1), rng.dirichlet(np.ones(n))
 
 
+def op_likelihood(op):
+    """Gaussian bump; operations whose name contains 'zeroregion' get a likelihood that is zero on half of the prior volume"""
+    base = lambda x: -0.5 * np.sum(((x - 0.5) / 0.1) ** 2, axis=1)
+    if "zeroregion" not in op:
+        return base
+    return lambda x: np.where(np.atleast_2d(x)[:, 0] < 0.45, -np.inf, base(x))
+
+
 def ckpt_kwargs(op, smp):
     """operations whose name contains 'ckpt' write a periodic checkpoint at every iteration (scratch directory, removed afterwards)."""
     if "ckpt" not in op:
@@ -217,7 +225,7 @@ def make_noreset(op):
                 return smp
             elif op.startswith("sampler-iterations"):
                 clustering = "-clustering" in op
-                smp = Sampler(lambda u: u, lambda x: -0.5 * np.sum(((x - 0.5) / 0.1) ** 2, axis=1), n_dim=2, n_particles=32,
+                smp = Sampler(lambda u: u, op_likelihood(op), n_dim=2, n_particles=32,
                               vectorize=True, clustering=clustering, sample="rwm" if "rwm" in op else "tpcn",
                               resample="syst" if "syst" in op else "mult", n_steps=1, n_max_steps=2,
                               random_state=(11 if "seeded" in op else None))
@@ -248,6 +256,28 @@ def make_noreset(op):
 
     def replay(m, label, v):
         """real numpy: run the operation from two different global seeds; equal draws afterwards <=> the stream was reset."""
+        if label == "no-unseeded-entropy-source" and op.startswith("sampler-iterations"):
+            # same seed, same inputs, twice: any entropy source outside the seeded stream shows up as different particles
+            saved0 = np.random.get_state()
+            runs = []
+            try:
+                for rep in range(2):
+                    np.random.seed(123)
+                    with warnings.catch_warnings():
+                        warnings.simplefilter("ignore")
+                        smp = Sampler(lambda u: u, op_likelihood(op), n_dim=2, n_particles=32, vectorize=True, clustering="-clustering" in op,
+                                      sample="rwm" if "rwm" in op else "tpcn", resample="syst" if "syst" in op else "mult", n_steps=1, n_max_steps=2,
+                                      random_state=(11 if "seeded" in op else None))
+                        smp._core._initialize_fresh()
+                        for _ in range(4):
+                            smp.sample()
+                    runs.append(np.asarray(smp.state.get_history("u", flat=True)).copy())
+            finally:
+                np.random.set_state(saved0)
+            same = runs[0].shape == runs[1].shape and np.array_equal(runs[0], runs[1])
+            return {"reproduced": not same, "signature": f"unseeded-entropy:{op}", "payload": {"first_rows_run1": runs[0][:2].tolist(), "first_rows_run2": runs[1][:2].tolist()},
+                    "what": f"two runs of {op} with the same seed and inputs give {'identical' if same else 'different'} particle histories: a draw is taken from a generator "
+                            "seeded from OS entropy"}
         outs = []
         saved = np.random.get_state()
         seeds_seen = []
@@ -314,7 +344,7 @@ def make_noreset(op):
                     else:
                         clustering = "-clustering" in op
                         np.random.seed = real_seed
-                        smp = Sampler(lambda u: u, lambda x: -0.5 * np.sum(((x - 0.5) / 0.1) ** 2, axis=1), n_dim=2, n_particles=32,
+                        smp = Sampler(lambda u: u, op_likelihood(op), n_dim=2, n_particles=32,
                                       vectorize=True, clustering=clustering, sample="rwm" if "rwm" in op else "tpcn",
                                       resample="syst" if "syst" in op else "mult", n_steps=1, n_max_steps=2,
                                       random_state=(11 if "seeded" in op else None))
@@ -409,7 +439,8 @@ def make_seeding():
 def obligations(tier):
     ops = ["gmm-fit-default", "gmm-fit-random_state", "hier-fit-predict", "systematic-resample", "sampler-iterations-clustering-tpcn-mult",
            "sampler-iterations-seeded-clustering-rwm-syst", "sampler-iterations-seeded-noclustering-tpcn-mult",
-           "hier-fit-twice", "sampler-posterior-seeded", "sampler-iterations-seeded-noclustering-rwm-mult-ckpt"]
+           "hier-fit-twice", "sampler-posterior-seeded", "sampler-iterations-seeded-noclustering-rwm-mult-ckpt",
+           "sampler-iterations-seeded-noclustering-tpcn-mult-zeroregion"]
     if tier == "thorough":
         ops += ["sampler-iterations-clustering-rwm-syst", "sampler-iterations-noclustering-tpcn-syst", "sampler-iterations-noclustering-rwm-mult",
                 "sampler-iterations-seeded-noclustering-tpcn-syst", "sampler-iterations-seeded-clustering-tpcn-mult",
